@@ -13,14 +13,16 @@
     unspecified: the model iterates association lists in list order and the
     comparison sorts the Renamed/Close runs (Refs/Cases.v).
 
-    Two deliberate re-orderings of unobservable atomic steps (no backend call in
+    Deliberate re-orderings of unobservable atomic steps (no backend call in
     between, same final state whenever no count reaches zero in between, which
     the LookupFID reference of the handler guarantees):
       - renameChildTo's callback does [parent := target; target.IncRef()]
         before [oldparent.DecRef()] (Go: DecRef first);
       - a fresh fidRef is created with refs = 1 and listed in [s_held] (the
         reference doWalk returns / the one InsertFID is about to take) instead
-        of refs = 0 followed by IncRef.
+        of refs = 0 followed by IncRef; the IncRef of its parent / xattr origin
+        is done at once ([new_ref_inc]), before addChild;
+      - stop() takes each fid out of the table as it drops its reference.
     Run-time panics (nameFor, addChildLocked, addPathNodeFor, removeChild,
     trename's assertion, nil parent) set [s_panic]; the handler answers EFAULT.
     The DecRef cascade and the node recursions take explicit fuel; running out
